@@ -311,6 +311,51 @@ func GenHistory(r *rand.Rand, o HistOpts) History {
 			}
 		}
 	}
+	if r.IntN(12) == 0 {
+		// two (file, test) pairs whose path and name run into one another when written
+		// back to back: x.snap + TestTestA and x.snapTest + TestA (Ext("Test"))
+		for i := range h.Tests {
+			tp := &h.Tests[i]
+			if strings.Contains(tp.Name, "/") {
+				continue
+			}
+			f, n := "", 0
+			for _, op := range tp.Ops {
+				if !op.standalone() && op.Ext == "" && !strings.Contains(op.File, "%") {
+					if f == "" {
+						f = op.File
+					}
+					if op.File == f {
+						n++
+					}
+				}
+			}
+			if n == 0 {
+				continue
+			}
+			other := TestPlan{Name: "Test" + tp.Name, Execs: 1}
+			for j := range tp.Ops {
+				if !tp.Ops[j].standalone() && tp.Ops[j].File == f && tp.Ops[j].Ext == "" {
+					if len(other.Ops) < 2 && !tp.Ops[j].Empty && tp.Ops[j].Fail == "" {
+						cp := tp.Ops[j]
+						cp.Test = other.Name
+						other.Ops = append(other.Ops, cp)
+					}
+					tp.Ops[j].Ext = "Test"
+				}
+			}
+			if len(other.Ops) == 0 {
+				break
+			}
+			if tp.Execs < 2 {
+				tp.Execs = 2
+			}
+			h.Tests = append([]TestPlan{other}, h.Tests...)
+			h.Classes["path-and-name-concatenations-collide"] = true
+			h.Classes["repeated-execution"] = true
+			break
+		}
+	}
 	if o.Skips {
 		for i := range h.Tests {
 			if n := len(h.Tests[i].Ops); n >= 1 && r.IntN(6) == 0 {
